@@ -57,11 +57,15 @@ def gen(rng, tier, i):
     sc.cfg["ioParams"] = {"bufferSize": rng.choice([1, 16, 4096, 65536]), "useSplice": False}
     oip, oport = sc.origin_ip(), sc.port()
     by_name = rng.random() < 0.4 or kind in ("socks4a", "trunc-socks4a")
+    # IPv6 literal destinations (SOCKS5 ATYP 4, bracketed CONNECT authority) where the client's protocol can carry them
+    v6 = not by_name and rng.random() < 0.35 and kind.replace("trunc-", "") in ("http", "socks5", "socks5p", "socks5auth", "up-http", "up-socks5")
+    if v6:
+        oip = sc.origin_ip(True)
     host = oip
     if by_name:
         host = "o%d.example.sim" % rng.randint(0, 99)
         sc.dns[host] = [oip]
-    meta = {"kind": kind, "keep_ops": True, "no_generic_fill_shrink": True}
+    meta = {"kind": kind, "v6": v6, "keep_ops": True, "no_generic_fill_shrink": True}
     gap = rng.choice([1, 1, 2, 10])
     if kind in ("http", "socks5", "socks5p", "socks5auth", "socks4", "socks4a", "up-http", "up-socks5", "up-socks4") or kind.startswith("trunc-") and kind != "trunc-rpfm":
         base = kind.replace("trunc-", "")
@@ -118,11 +122,12 @@ def gen(rng, tier, i):
             tunnels.append({"cid": cid, "seed": seed, "c2s": c2s, "s2c": s2c, "proto": proto, "twin": twin})
         serve = [op("serve_tagged", timeout_ms=60000)]
         if ci["kind"] == "direct":
-            sc.add_origin("%s:%d" % (oip, oport), default_ops=serve, oid="origin")
+            sc.add_origin(("[%s]:%d" if v6 else "%s:%d") % (oip, oport), default_ops=serve, oid="origin")
         else:
             # conn 0 = plain twin (uncut replies), conn 1 = cut twin (replies cut)
-            hs0 = sc.upstream_handshake(ci)
-            hs1 = sc.upstream_handshake(ci)
+            ratyp = rng.choice([1, 1, 4, 4, 3])   # address type of the upstream's BND.ADDR (SOCKS5 replies)
+            hs0 = sc.upstream_handshake(ci, reply_atyp=ratyp)
+            hs1 = sc.upstream_handshake(ci, reply_atyp=ratyp)
             for o in hs1:
                 if o["op"] == "send":
                     n = len(bytes.fromhex(o["hex"]))
